@@ -33,13 +33,17 @@
     loss-detail names are pairwise distinct and distinct from the reserved column names; no two cells
     share coordinates and metadata; each cell lists its names in the order of the enumerations
     fn / dn / ln (the code enumerates Python sets, so the order is a parameter of the model).
-    Matrix: month ids 0..1571 (1970-2100), one period grid with period length = exp_res (G1), nested
-    resolutions (G2), >= 2 evaluation dates, metadata numbers already floats.
+    Matrix / array frame: any month-aligned dates with year >= 1 (month ids >= MINID = -23628; the
+    calendar facts are the unbounded ones of Proofs/CalendarP.v about Lib/Calendar.v -- Calendar.addm /
+    month_id equal the source's add_months / month_to_id only where the C12 bridge theorem says so),
+    one period grid with period length = exp_res (G1), nested resolutions (G2), >= 2 evaluation
+    dates, metadata numbers already floats.
     CSV-level side conditions outside the table model: no string equal to a pandas NA token (G4),
     no string that parses as a number.
 
-    STILL NOT THEOREMS (evaluated per case by the correspondence check only): the pandas layer; the
-    error paths of to_array (several slices / incremental input) and frames with further fields;
+    STILL NOT THEOREMS (evaluated per case by the correspondence check only): the pandas layer; 
+    array frames with further fields (the refusals of to_array for several slices / incremental input
+    are C14_array_refuses_multi_slice / C14_array_refuses_incremental);
     one-element sample arrays and fields outside `fields` in the Matrix (both are not equalities of
     the implementation either); the rich-matrix inverse (only its step is tied, by matrix_spec_ok).
     The lemmas further down (grouping keys separate, groups are cells, sample order, dict / metadata /
@@ -47,7 +51,7 @@
 From Coq Require Import ZArith List Bool Sorting.Permutation Sorting.Sorted.
 From Bermuda Require Import Model.Base Lib.Calendar Model.Frame Model.MatrixIx
      Proofs.FrameLib Proofs.FrameKey Proofs.FrameGroups Proofs.FrameSort Proofs.FrameMeta Proofs.FrameValues
-     Proofs.FrameRow Proofs.FrameWide4 Proofs.FrameWide5 Proofs.FrameLong Proofs.FrameLongCount Proofs.MatrixIxP Proofs.MatrixIxP2 Proofs.MatrixIxArr
+     Proofs.FrameRow Proofs.FrameWide4 Proofs.FrameWide5 Proofs.FrameLong Proofs.FrameLongCount Proofs.MatrixIxU Proofs.MatrixIxU2 Proofs.MatrixIxUArr
      Proofs.FrameExample.
 Import ListNotations.
 Local Open Scope Z_scope.
@@ -241,7 +245,7 @@ Print Assumptions C14_matrix_unresolve_resolve.
 
 (** experience axis *)
 Theorem C14_matrix_resolve_unresolve_exp : forall ix n, 0 < exp_res ix -> 0 <= n ->
-  0 <= exp_origin ix + n * exp_res ix <= 1571 ->
+  MINID <= exp_origin ix + n * exp_res ix ->
   resolve_exp ix (unresolve_exp_start ix n) = Ok n.
 Proof. exact resolve_unresolve_exp. Qed.
 Print Assumptions C14_matrix_resolve_unresolve_exp.
@@ -253,13 +257,12 @@ Theorem C14_matrix_nested_step_divides : forall ix a b, 0 < dev_res ix -> 0 < ex
 Proof. exact nested_step_divides. Qed.
 Print Assumptions C14_matrix_nested_step_divides.
 
-(** a cell on the grid: its indices turn back into its three dates (month ids 0..1571 = 1970-2100) *)
+(** a cell on the grid: its indices turn back into its three dates (any month id >= MINID, i.e. year >= 1) *)
 Theorem C14_matrix_coords_roundtrip : forall k ix s lag,
   0 < exp_res ix -> 0 < step_of k ix ->
   (exp_res ix | s - exp_origin ix) -> exp_origin ix <= s ->
   dev_origin ix <= lag -> (step_of k ix | lag - dev_origin ix) ->
-  0 <= s -> 0 <= s + exp_res ix - 1 + lag -> s + exp_res ix - 1 <= 1571 ->
-  s + exp_res ix - 1 + lag <= 1571 ->
+  MINID <= s ->
   exists p d,
     resolve_exp ix (month_start s) = Ok p /\ resolve_dev k ix lag = Ok d /\
     cell_coords_from_index k ix p d
@@ -281,7 +284,7 @@ Print Assumptions C14_matrix_mixed_steps_refuted.
 
 
 (* ---------------------------------------------------------------------------------- *)
-(** (M) THE MATRIX FORM, cumulative: month-aligned (ids 0..1571 = 1970-2100) semi-regular triangle on one period grid (every period exactly exp_res long), nested resolutions, any number of slices, complete or holey, every cell carrying a non-empty subset of the fields (scalar numbers; metadata numbers already floats): matrix_to_triangle (triangle_to_matrix t) is a permutation of floatify t (Triangle(...) sorts) *)
+(** (M) THE MATRIX FORM, cumulative: month-aligned (year >= 1) semi-regular triangle on one period grid (every period exactly exp_res long), nested resolutions, any number of slices, complete or holey, every cell carrying a non-empty subset of the fields (scalar numbers; metadata numbers already floats): matrix_to_triangle (triangle_to_matrix t) is a permutation of floatify t (Triangle(...) sorts) *)
 Theorem C14_matrix_round_trip : forall msp t fields ix,
   ms_resolve_step msp = SMin -> ms_inverse_step msp = SMin ->
   semi_regular t = true ->
@@ -333,7 +336,20 @@ Print Assumptions C14_array_result_is_floatify.
 
 (** period_resolution=None (after the G5 repair): the inferred resolution is the distance of the first two period starts *)
 Theorem C14_array_inferred_resolution : forall res r0 r1 rows,
-  0 <= fst r0 <= 1571 -> 0 <= fst r1 <= 1571 -> fst r1 - fst r0 = res ->
+  MINID <= fst r0 -> MINID <= fst r1 -> fst r1 - fst r0 = res ->
   infer_resolution (array_of_rows (r0 :: r1 :: rows)) = Ok res.
 Proof. exact (infer_resolution_rows). Qed.
 Print Assumptions C14_array_inferred_resolution.
+
+(** the array data frame refuses a triangle with several slices (ValueError) *)
+Theorem C14_array_refuses_multi_slice : forall t f, t <> [] ->
+  (exists a b, In a t /\ In b t /\ meta_seqb (cmeta a) (cmeta b) = false) ->
+  to_array t f = Err ValueError.
+Proof. exact to_array_refuses_multi_slice. Qed.
+Print Assumptions C14_array_refuses_multi_slice.
+
+(** ... and an incremental triangle (ValueError) *)
+Theorem C14_array_refuses_incremental : forall t f c r, t = c :: r -> is_inc c = true ->
+  to_array t f = Err ValueError.
+Proof. exact to_array_refuses_incremental. Qed.
+Print Assumptions C14_array_refuses_incremental.
